@@ -80,6 +80,8 @@ enum Fault {
 enum Scenario {
     FreshLatch,
     RestartWithKey,
+    /// like RestartWithKey, but the stored key document has no incarnationId while the status document carries keyIncarnationId
+    RestartWithKeyNoIncarnation,
     RotationNoGuid,   // host names no key while an old key file exists
     RotationOtherGuid, // host names a key the guest never had
     LocalKeyTruncated,
@@ -101,6 +103,8 @@ struct HostState {
     /// what the scenario put into the store / into the host before the agent started
     initial_files: HashMap<String, Vec<u8>>,
     initial_latched: Option<usize>,
+    /// keyIncarnationId of the status document (an optional field)
+    status_incarnation: Option<u32>,
 }
 
 fn guid_of(tag: u64, i: usize) -> String {
@@ -130,7 +134,10 @@ fn start_host(port: u16, st: Arc<Mutex<HostState>>) -> MockHost {
                 }
                 _ => {}
             }
-            let d = json!({"authorizationScheme": "Azure-HMAC-SHA256", "keyDeliveryMethod": "http", "keyGuid": s.latched.map(|i| s.issued[i].0.clone()), "secureChannelState": "Wireserver", "version": "1.0"});
+            let mut d = json!({"authorizationScheme": "Azure-HMAC-SHA256", "keyDeliveryMethod": "http", "keyGuid": s.latched.map(|i| s.issued[i].0.clone()), "secureChannelState": "Wireserver", "version": "1.0"});
+            if let Some(n) = s.status_incarnation {
+                d["keyIncarnationId"] = json!(n);
+            }
             Action::Reply(vec![simple_response(200, &[("Content-Type", "application/json")], d.to_string().as_bytes())])
         } else if t == "/secure-channel/key" {
             match s.fault {
@@ -242,6 +249,14 @@ fn prepare(slot: &Slot, sc: Scenario, fault: Fault, tag: u64) {
             let i = mk(&mut s);
             s.latched = Some(i);
             write_key(&slot.key_dir, &s.issued[i].0, &s.issued[i].1, None);
+        }
+        Scenario::RestartWithKeyNoIncarnation => {
+            let i = mk(&mut s);
+            s.latched = Some(i);
+            s.status_incarnation = Some(1);
+            let mut doc = key_json(&s.issued[i].0, &s.issued[i].1);
+            doc.as_object_mut().unwrap().remove("incarnationId");
+            write_key(&slot.key_dir, &s.issued[i].0, &s.issued[i].1, Some(&serde_json::to_string_pretty(&doc).unwrap()));
         }
         Scenario::RotationNoGuid => {
             let i = mk(&mut s);
@@ -397,7 +412,7 @@ fn main() {
         })
         .collect();
 
-    let scenarios: Vec<Scenario> = vec![Scenario::FreshLatch, Scenario::RestartWithKey, Scenario::RotationNoGuid, Scenario::RotationOtherGuid, Scenario::LocalKeyTruncated, Scenario::LocalKeyEmpty];
+    let scenarios: Vec<Scenario> = vec![Scenario::FreshLatch, Scenario::RestartWithKey, Scenario::RestartWithKeyNoIncarnation, Scenario::RotationNoGuid, Scenario::RotationOtherGuid, Scenario::LocalKeyTruncated, Scenario::LocalKeyEmpty];
     let faults: Vec<Fault> = if thorough {
         vec![Fault::None, Fault::Status500, Fault::StatusMalformed, Fault::Acquire500, Fault::AcquireMalformed, Fault::Attest500, Fault::AttestLatchThenReset, Fault::AttestResetBeforeLatch]
     } else {
@@ -435,6 +450,9 @@ fn main() {
             let case = json!({"scenario": format!("{:?}", sc), "host_fault": format!("{:?}", f), "kill_at": null});
             if code != Some(0) {
                 res.violation(&format!("no-recovery-without-crash:{:?}:{:?}", sc, f), &format!("without any crash the agent did not reach an accepted signed request (exit {:?}); host: acquires {} attests {} rejected {}", code, slot.st.lock().unwrap().acquires, slot.st.lock().unwrap().attests, slot.st.lock().unwrap().rejected_signed), case.clone());
+            }
+            if matches!(sc, Scenario::RestartWithKey | Scenario::RestartWithKeyNoIncarnation) && slot.st.lock().unwrap().acquires != 0 {
+                res.violation(&format!("latched-key-not-reused:{:?}:{:?}:no-kill", sc, f), &format!("the agent started with the host's latched key complete in its store and requested a new key all the same ({} acquisitions)", slot.st.lock().unwrap().acquires), case.clone());
             }
             for (sig, what) in inspect_store(slot) {
                 res.violation(&format!("{sig}:{:?}:{:?}:no-kill", sc, f), &what, case.clone());
